@@ -645,3 +645,126 @@ def alias_nodes(fn, value):
                 continue
         yield n
         todo.extend(ast.iter_child_nodes(n))
+
+
+# ---------------------------------------------------------------------------------------------- self-test side
+# (harness/py2lean_selftest.py: CPython vs the generated definitions; this module brings the families of argument
+# tuples / object states for its classes and how to call the real methods)
+
+FB_NAMES = ['a', 'b', 'c', 'd', 'kw', 'args', '_call', '']
+
+
+def call_method(spec, fn, case, to_py):
+    """build a FunctionBuilder with the attributes of `case['self']` (no __init__: the state is arbitrary), call the
+    real method, read the attributes back.  A user-defined exception class is reported as its builtin base class and
+    its tag in `exc_sub`, which is how the generated definitions model it."""
+    from bv import common
+    cls = spec['cls']
+    pycls = fn.__globals__[cls['name']]
+    obj = pycls.__new__(pycls)
+    for a, tt in cls['state'].items():
+        if a == TAG_ATTR:
+            continue
+        v = to_py(py2lean.parse_type(tt), case['self'][a])
+        if a == 'defaults' and v is not None:
+            v = tuple(v)
+        setattr(obj, a, v)
+    kw = {}
+    for p, tt in spec['params'].items():
+        v = to_py(py2lean.parse_type(tt), case[py2lean.mangle(p)])
+        if v is None and py2lean.parse_type(tt)[0] == 'Option':
+            continue                     # `none` of a parameter whose default is the "omitted" marker
+        kw[p] = v
+    tag = case['self'].get(TAG_ATTR, 0)
+    try:
+        with common.time_limit(5):
+            r = fn(obj, **kw)
+            if isinstance(r, tuple):
+                r = list(r)
+        res = ('ok', r)
+    except common.CaseTimeout:
+        res = ('exc', 'CaseTimeout')
+    except Exception as e:  # noqa: BLE001
+        name = type(e).__name__
+        ue = cls.get('user_exc', {})
+        if name in ue:
+            res, tag = ('exc', ue[name]['base']), ue[name]['tag']
+        else:
+            res = ('exc', name)
+    after = {a: (tag if a == TAG_ATTR else getattr(obj, a)) for a in cls['state']}
+    return res, after
+
+
+def _fb_states(rng, quick):
+    """states of a FunctionBuilder: reachable ones (`from_func` of generated functions followed by random histories of
+    `add_arg` / `remove_arg` on the real class) and arbitrary ones (duplicates, more defaults than arguments,
+    `defaults` None / empty, defaults for names that are not keyword-only arguments)"""
+    import importlib
+    mod = importlib.import_module('boltons.funcutils')
+
+    def snap(fb):
+        return {'name': fb.name, 'args': list(fb.args), 'defaults': None if fb.defaults is None else list(fb.defaults),
+                'kwonlyargs': list(fb.kwonlyargs), 'kwonlydefaults': dict(fb.kwonlydefaults or {}),
+                'varargs': fb.varargs, 'varkw': fb.varkw, TAG_ATTR: 0}
+    for _ in range(14 if quick else 140):
+        names = rng.sample(FB_NAMES[:7], rng.randint(0, 5))
+        npos = rng.randint(0, len(names))
+        pos, kwo = names[:npos], names[npos:]
+        nd = rng.randint(0, len(pos))
+        parts = [p for p in pos[:len(pos) - nd]] + ['%s=%d' % (p, i) for i, p in enumerate(pos[len(pos) - nd:])]
+        va = rng.choice([None, None, 'va'])
+        vk = rng.choice([None, 'vk'])
+        if va:
+            parts.append('*' + va)
+        elif kwo:
+            parts.append('*')
+        parts += [k if rng.random() < 0.5 else '%s=%d' % (k, 10 + i) for i, k in enumerate(kwo)]
+        if vk:
+            parts.append('**' + vk)
+        ns = {}
+        exec('def f(%s): pass' % ', '.join(parts), ns)
+        fb = mod.FunctionBuilder.from_func(ns['f'])
+        yield snap(fb)
+        for _ in range(rng.randint(0, 6)):
+            try:
+                if rng.random() < 0.5:
+                    fb.remove_arg(rng.choice(FB_NAMES))
+                else:
+                    fb.add_arg(rng.choice(FB_NAMES), *([rng.randint(0, 9)] if rng.random() < 0.5 else []),
+                               kwonly=rng.random() < 0.3)
+            except ValueError:
+                pass
+            yield snap(fb)
+    for _ in range(40 if quick else 400):
+        args = [rng.choice(FB_NAMES) for _ in range(rng.randint(0, 4))]
+        kwo = [rng.choice(FB_NAMES) for _ in range(rng.randint(0, 3))]
+        yield {'name': rng.choice(FB_NAMES), 'args': args,
+               'defaults': rng.choice([None, [], [rng.randint(0, 9) for _ in range(rng.randint(0, 5))]]),
+               'kwonlyargs': kwo,
+               'kwonlydefaults': {k: rng.randint(0, 9) for k in rng.sample(FB_NAMES, rng.randint(0, 3))},
+               'varargs': rng.choice([None, 'va', 'a']), 'varkw': rng.choice([None, 'vk', 'b']), TAG_ATTR: 0}
+
+
+def fam_fb(method):
+    def fam(rng, quick):
+        for st in _fb_states(rng, quick):
+            for _ in range(2):
+                case = {'self': st}
+                known = st['args'] + st['kwonlyargs']
+                name = rng.choice(known) if known and rng.random() < 0.5 else rng.choice(FB_NAMES)
+                if method == 'get_arg_names':
+                    case['only_required'] = rng.random() < 0.5
+                elif method == 'add_arg':
+                    case.update(arg_name=name, default=rng.choice([None, None, 0, 7]), kwonly=rng.random() < 0.4)
+                elif method == 'remove_arg':
+                    case.update(arg_name=name)
+                yield case
+    return fam
+
+
+FAMILIES = {
+    'FunctionBuilder.get_defaults_dict': fam_fb('get_defaults_dict'),
+    'FunctionBuilder.get_arg_names': fam_fb('get_arg_names'),
+    'FunctionBuilder.add_arg': fam_fb('add_arg'),
+    'FunctionBuilder.remove_arg': fam_fb('remove_arg'),
+}
